@@ -578,7 +578,15 @@ def _obs_term(case, obs, val, vtype, edges=None):
     if case.get("rep", 1) != 1:
         quads = []          # only the frame profile (batching) is compared for repeated frames
     else:
-        quads = [L.pair(L.Z(q[0]), L.Z(q[1]), _optz(q[2]), _optz(q[3])) for q in obs["quads"]]
+        runs = []
+        if any(not (x is None or isinstance(x, int)) for q in obs["quads"] for x in q) or any(q[0] is None or q[1] is None for q in obs["quads"]):
+            return None
+        for q in obs["quads"]:
+            if runs and runs[-1][1] == q:
+                runs[-1][0] += 1
+            else:
+                runs.append([1, q])
+        quads = [L.pair(L.nat(k), L.pair(L.Z(q[0]), L.Z(q[1]), _optz(q[2]), _optz(q[3]))) for k, q in runs]
     est = obs["estimate"] if isinstance(obs["estimate"], int) else -1
     return "(mko %s %s %s %s : obs %s)" % (w, L.opt(cut), L.lst(quads), L.Z(est), vtype)
 
